@@ -145,7 +145,7 @@ static int ntop_call(int af, const unsigned char *addr, size_t len, const char *
 	return 1;
 }
 
-/* IPv4: full-size, strlen+1, strlen and one rotating length */
+/* IPv4: full-size, strlen+1, strlen and (every fourth address) one rotating length 0..18 */
 static void ntop4_addr(uint32_t a, int all_lens)
 {
 	unsigned char ad[4] = { a >> 24, a >> 16, a >> 8, a };
@@ -161,7 +161,7 @@ static void ntop4_addr(uint32_t a, int all_lens)
 	} else {
 		ntop_call(AF_INET, ad, L + 1, full, NULL);
 		ntop_call(AF_INET, ad, L, full, NULL);
-		ntop_call(AF_INET, ad, (a * 2654435761u >> 7) % 19, full, NULL);
+		if ((a & 3) == 0) ntop_call(AF_INET, ad, (a * 2654435761u >> 7) % 19, full, NULL);
 	}
 }
 
@@ -237,7 +237,7 @@ static void case_ntop4_block(long idx)
 	vh_stat_add("ntop4_addresses", 65536);
 	vh_stat("ntop4_blocks_of_65536");
 	vh_distinct(vh_hash_bytes(4, &base, 4));
-	vh_sample(1, "{\"op\":\"ntop4-block\",\"first\":\"%u.%u.0.0\",\"count\":65536,\"lengths\":\"16,L+1,L,rot\"}", base >> 24, (base >> 16) & 255);
+	vh_sample(1, "{\"op\":\"ntop4-block\",\"first\":\"%u.%u.0.0\",\"count\":65536,\"lengths\":\"16,L+1,L,rot(1/4)\"}", base >> 24, (base >> 16) & 255);
 }
 static void case_ntop4_sample(vh_rng *r)
 {
@@ -709,7 +709,8 @@ static void sap_invalid(vh_rng *r)
 	size_t n;
 	if (vh_chance(r, 1, 3)) {
 		/* valid address, bad port */
-		long port = vh_chance(r, 1, 3) ? 0 : vh_range(r, 65536, 99999);  /* CALIBRATED: port 0 in text is refused */
+		static const long edge[] = { 65536, 65537, 65540, 70000, 99999, 100000, 131071, 131072, 655350, 2147483647L };
+		long port = vh_chance(r, 1, 3) ? 0 : vh_chance(r, 1, 2) ? VH_PICK(r, edge) : vh_range(r, 65536, 99999);  /* CALIBRATED: port 0 in text is refused */
 		if (is6) gen_v6_text(r, addr, 0); else gen_v4_text(r, addr, 0);
 		if (ref_pton(af, addr, tmp, &allow) != 1) return;
 		if (is6) snprintf(text, sizeof(text), "[%s]:%ld", addr, port); else snprintf(text, sizeof(text), "%s:%ld", addr, port);
